@@ -2090,9 +2090,85 @@ def _bind_target(target, value, env):
     return False
 
 
+class _Partials(ast.NodeTransformer):
+    """fn = partial(g, a, b); ... fn(x)   ->   fn_0 = a; fn_1 = b; ... g(fn_0,
+    fn_1, x)   for a local bound once to a functools.partial that is only
+    ever called (arguments that are names or constants are written in
+    place)."""
+    def __init__(self):
+        self.count = 0
+
+    def _scope(self, node):
+        self.generic_visit(node)
+        stores, loads, callees = {}, {}, {}
+        for x in ast.walk(node):
+            if isinstance(x, ast.Name):
+                d = stores if isinstance(x.ctx, (ast.Store, ast.Del)) \
+                    else loads
+                d[x.id] = d.get(x.id, 0) + 1
+            if isinstance(x, ast.Call) and isinstance(x.func, ast.Name):
+                callees[x.func.id] = callees.get(x.func.id, 0) + 1
+        cands = {}
+        for st in ast.walk(node):
+            if isinstance(st, ast.Assign) and len(st.targets) == 1 and \
+                    isinstance(st.targets[0], ast.Name) and \
+                    isinstance(st.value, ast.Call) and \
+                    ast.unparse(st.value.func) in ('partial',
+                                                   'functools.partial') and \
+                    st.value.args and not st.value.keywords and \
+                    not any(isinstance(a, ast.Starred)
+                            for a in st.value.args) and \
+                    isinstance(st.value.args[0], (ast.Name, ast.Attribute)):
+                name = st.targets[0].id
+                if stores.get(name) == 1 and loads.get(name, 0) > 0 and \
+                        loads.get(name) == callees.get(name):
+                    cands[name] = st
+        if not cands:
+            return node
+
+        class B(ast.NodeTransformer):
+            def visit_Call(self2, call):
+                self2.generic_visit(call)
+                if isinstance(call.func, ast.Name) and \
+                        call.func.id in cands:
+                    st = cands[call.func.id]
+                    pre = [copy.deepcopy(a) if isinstance(a, (
+                        ast.Name, ast.Constant)) else ast.Name(
+                            id='%s_%d' % (call.func.id, i), ctx=ast.Load())
+                        for i, a in enumerate(st.value.args[1:])]
+                    call.func = copy.deepcopy(st.value.args[0])
+                    call.args = pre + call.args
+                return call
+        B().visit(node)
+
+        class A(ast.NodeTransformer):
+            def visit_Assign(self2, st):
+                for name, c in cands.items():
+                    if st is c:
+                        out = [ast.copy_location(ast.Assign(
+                            targets=[ast.Name(id='%s_%d' % (name, i),
+                                              ctx=ast.Store())],
+                            value=a, lineno=st.lineno), st)
+                            for i, a in enumerate(st.value.args[1:])
+                            if not isinstance(a, (ast.Name, ast.Constant))]
+                        return out or ast.copy_location(ast.Pass(), st)
+                return st
+        A().visit(node)
+        self.count += len(cands)
+        return node
+
+    visit_FunctionDef = _scope
+    visit_AsyncFunctionDef = _scope
+
+
 def desugar(trees):
     n = 0
     for t in trees.values():
+        pp = _Partials()
+        pp.visit(t)
+        if pp.count:
+            ast.fix_missing_locations(t)
+        n += pp.count
         q = _Quantifiers()
         q.visit(t)
         if q.count:
@@ -2501,13 +2577,20 @@ def inline_new_constants(trees, known):
 def is_replace_if_present(e):
     """`x.replace(p, c) if p else x`: one value, with p blanked when there
     is a p (the masking idiom); stays an expression."""
+    def encoded(x):
+        # p / p.encode(), '***' / '***'.encode()  (str and bytes variants)
+        if isinstance(x, ast.Call) and isinstance(x.func, ast.Attribute) \
+                and x.func.attr == 'encode' and not x.args and \
+                not x.keywords:
+            return x.func.value
+        return x
     return isinstance(e, ast.IfExp) and isinstance(e.test, ast.Name) and \
         isinstance(e.body, ast.Call) and \
         isinstance(e.body.func, ast.Attribute) and \
         e.body.func.attr == 'replace' and len(e.body.args) == 2 and \
-        isinstance(e.body.args[0], ast.Name) and \
-        e.body.args[0].id == e.test.id and \
-        isinstance(e.body.args[1], ast.Constant) and \
+        isinstance(encoded(e.body.args[0]), ast.Name) and \
+        encoded(e.body.args[0]).id == e.test.id and \
+        isinstance(encoded(e.body.args[1]), ast.Constant) and \
         ast.dump(e.body.func.value) == ast.dump(e.orelse)
 
 
